@@ -92,6 +92,11 @@ def fork_cases():
                {"e": "burst", "b": 100000}] + [{"e": "deliver"}] * 40
         cases.append(({"sm": "file", "rm": "file", "sf": True, "rf": False, "sb": 16, "rb": 16}, evs,
                       {"kind": "fork-bad" if bad else "fork"}))
+    # D66: the follower's own fork dump is under way when a complete snapshot from the leader is installed
+    evs = [{"e": "sndInstall", "d": "0102030405060708"}, {"e": "rcvSerialize", "id": 3, "n": 2}, {"e": "burst", "b": 100000}] + \
+          [{"e": "deliver"}] * 4 + [{"e": "rcvChildRun"}, {"e": "rcvCheck"}, {"e": "rcvSerialize", "id": 8, "n": 3},
+                                    {"e": "rcvChildRun"}, {"e": "rcvCheck"}]
+    cases.append(({"sm": "memory", "rm": "file", "sf": False, "rf": True, "sb": 4, "rb": 4}, evs, {"kind": "fork-install-over-own-dump"}))
     return cases
 
 
